@@ -46,14 +46,31 @@ Fixpoint load (always : bool) (mt : nat -> nat) (k i : nat) (parent : option nat
   if always || reload then handoff st1 parent i else st1.
 
 (* histories: top-level loads of any module of the chain, and edits (a file's time moves forward) *)
-Inductive op := Load (i : nat) | Edit (f : nat) (dt : nat).
+Inductive op := Load (i : nat) | Edit (f : nat) (dt : nat) | Restart.
 Definition world := (state * (nat -> nat))%type.
 Definition step (always : bool) (n : nat) (w : world) (o : op) : world :=
   match o with
   | Load i => (load always (snd w) (n - i) i None (fst w), snd w)
   | Edit f dt => (fst w, upd (snd w) f (snd w f + S dt))
+  | Restart => (init, snd w)                 (* a new process: empty caches, the files as they are *)
   end.
 Definition run (always : bool) (n : nat) (ops : list op) : world := fold_left (step always n) ops (init, fun _ => 0).
+
+(* what the code's need_reload answers for modules 0 and 1 just before every load of a history (correspondence) *)
+Fixpoint trace (always : bool) (n : nat) (w : world) (ops : list op) : list (bool * bool) :=
+  match ops with
+  | [] => []
+  | o :: r => (match o with Load _ => [(need_reload (snd w) (fst w) 0, need_reload (snd w) (fst w) 1)] | _ => [] end)
+              ++ trace always n (step always n w o) r
+  end.
+Definition beqb2 (a b : bool * bool) : bool := Bool.eqb (fst a) (fst b) && Bool.eqb (snd a) (snd b).
+Fixpoint list_eqb2 (a b : list (bool * bool)) : bool :=
+  match a, b with [], [] => true | x :: a', y :: b' => beqb2 x y && list_eqb2 a' b' | _, _ => false end.
+Fixpoint check_from (always : bool) (k : nat) (cases : list (list op * list (bool * bool))) : list nat :=
+  match cases with
+  | [] => []
+  | (ops, obs) :: r => (if list_eqb2 (trace always 1 (init, fun _ => 0) ops) obs then [] else [k]) ++ check_from always (S k) r
+  end.
 
 Section Proofs.
 Variable n : nat.
@@ -225,7 +242,7 @@ Qed.
 
 Lemma good_step w o : (forall i, o = Load i -> i <= n) -> Good w -> Good (step true n w o).
 Proof.
-  intros Hle (Hs & Hi & Ha). destruct w as [st mt]. cbn in *. destruct o as [i|f dt]; cbn.
+  intros Hle (Hs & Hi & Ha). destruct w as [st mt]. cbn in *. destruct o as [i|f dt|]; cbn.
   - assert (i <= n) as Hin by (apply Hle; reflexivity).
     destruct (load_spec mt (n - i) i None st) as (S1 & S2 & S3 & S4 & S5 & _); try assumption.
     + lia.
@@ -240,6 +257,8 @@ Proof.
     intros j l g t Hl Hlk. specialize (Ha j l g t Hl Hlk). unfold upd. destruct (Nat.eqb g f) eqn:E.
     + apply Nat.eqb_eq in E. subst g. lia.
     + exact Ha.
+  - destruct good_init as (G1 & G2 & G3). unfold Good; cbn. refine (conj G1 (conj G2 _)).
+    intros j l g t H. discriminate H.
 Qed.
 
 Lemma good_run ops : (forall i, In (Load i) ops -> i <= n) -> Good (run true n ops).
